@@ -327,3 +327,26 @@ Example c05_save_load_witness :
   | None => False
   end.
 Proof. vm_compute. repeat split; reflexivity. Qed.
+
+(* the theorems above quantify over every sm_update and every result type, so
+   they make no assumption that a result is non-empty. Concretely, with the
+   harness state machine returning the ZERO result (command byte 0xE0): the
+   application is recorded in the history, the retry is answered from the cache
+   (user state machine untouched), the tagged trace has one tag, and this
+   survives snapshot + restart *)
+Example c05_empty_result_witness :
+  let reg c := mkEntry c series_id_for_register 0 [] in
+  let e := mkEntry 5 1 0 [224; 9] in
+  let st := run_state acc_update (acc_init 2) [reg 5] in
+  snd (acc_step st e) = OApplied (0, []) /\
+  let st1 := fst (acc_step st e) in
+  map (fun s => (s_client s, s_history s)) (t_list (st_tab st1)) = [(5, [(1, (0, []))])] /\
+  acc_step st1 e = (st1, OCached (0, [])) /\
+  sm_calls_tagged acc_update 2 0 [reg 5; e; e; mkEntry 0 0 0 []; e] = [(5, 1%nat, 1)] /\
+  match acc_snapshot st1 with
+  | Some (sn, _) => match acc_restore sn with
+                    | Some st2 => acc_step st2 e = (st2, OCached (0, []))
+                    | None => False end
+  | None => False
+  end.
+Proof. vm_compute. repeat split; reflexivity. Qed.
